@@ -42,13 +42,17 @@ type Thread struct {
 	Daemon    bool
 	st        state
 	grant     chan struct{}
-	blockedAt int
+	blockedAt int  // progress counter when its TryLock last failed
+	retry     bool // one more try although nobody made progress (the lock may be held by unmanaged code)
 	adopted   bool
 	gid       uint64
 	woke      bool
 }
 
-type event struct{ t *Thread }
+type event struct {
+	t   *Thread
+	seq int // step number at the time of the park (stale events are ignored)
+}
 
 type S struct {
 	mu          sync.Mutex
@@ -56,6 +60,7 @@ type S struct {
 	byGid       map[uint64]*Thread
 	events      chan event
 	stepNo      int
+	progressNo  int           // number of parks / returns other than failed lock attempts
 	Adopt       bool          // adopt unmanaged goroutines that reach a yield
 	AdoptDaemon bool          // adopted goroutines are daemons
 	Hard        time.Duration // a granted thread that neither yields nor blocks within this time counts as blocked
@@ -123,10 +128,22 @@ func parseStates(b []byte) map[uint64]string {
 		if e := bytes.IndexAny(st, ",]"); e >= 0 {
 			st = st[:e]
 		}
-		res[id] = string(st)
+		state := string(st)
+		// the frames of this goroutine follow up to the next empty line
+		end := bytes.Index(b, []byte("\n\n"))
+		frames := b
+		if end >= 0 {
+			frames = b[:end]
+		}
+		if bytes.Contains(frames, parkFrame) {
+			state = "parking"
+		}
+		res[id] = state
 	}
 	return res
 }
+
+var parkFrame = []byte("concx.(*S).park")
 
 var blockedStates = map[string]bool{
 	"chan receive": true, "chan send": true, "select": true, "IO wait": true, "sleep": true,
@@ -162,7 +179,8 @@ func (s *S) Go(name string, fn func()) *Thread {
 		}
 		t.st = stDone
 		t.Label = "done"
-		s.events <- event{t} // under the mutex: whoever sees the new state also finds the event queued
+		s.progressNo++
+		s.events <- event{t, s.stepNo} // under the mutex: whoever sees the new state also finds the event queued
 		s.mu.Unlock()
 	}()
 	<-ready
@@ -198,8 +216,12 @@ func (s *S) park(label string, st state) {
 	}
 	t.Label = label
 	t.st = st
-	t.blockedAt = s.stepNo
-	s.events <- event{t} // under the mutex (see Go)
+	if st == stLockBlocked {
+		t.blockedAt = s.progressNo
+	} else {
+		s.progressNo++
+	}
+	s.events <- event{t, s.stepNo} // under the mutex (see Go)
 	s.mu.Unlock()
 	<-t.grant
 	if s.isAborted() {
@@ -384,6 +406,7 @@ func (s *S) Run(choose Chooser, maxPreempt int, onStep func(Step)) Result {
 	preempts := 0
 	granted := 0
 	retries := 0
+	retryAt := -1
 	var hungSince time.Time
 	timer := time.NewTimer(time.Hour)
 	defer timer.Stop()
@@ -425,7 +448,8 @@ func (s *S) Run(choose Chooser, maxPreempt int, onStep func(Step)) Result {
 				elig = append(elig, t)
 			case stLockBlocked:
 				anyLock = true
-				if s.stepNo > t.blockedAt {
+				// retried only after somebody else made progress: two spinning threads must not starve the lock holder
+				if s.progressNo > t.blockedAt || t.retry {
 					elig = append(elig, t)
 				}
 			case stRuntimeBlocked:
@@ -448,6 +472,21 @@ func (s *S) Run(choose Chooser, maxPreempt int, onStep func(Step)) Result {
 				continue
 			}
 			if anyLock {
+				// the lock may be held by unmanaged code: every lock-blocked thread gets one more try
+				s.mu.Lock()
+				again := s.progressNo != retryAt
+				if again {
+					retryAt = s.progressNo
+					for _, t := range s.threads {
+						if t.st == stLockBlocked {
+							t.retry = true
+						}
+					}
+				}
+				s.mu.Unlock()
+				if again {
+					continue
+				}
 				res.Deadlock = true
 			}
 			return res
@@ -498,9 +537,14 @@ func (s *S) Run(choose Chooser, maxPreempt int, onStep func(Step)) Result {
 		}
 		s.mu.Lock()
 		t.st = stRunning
+		t.retry = false
 		s.stepNo++
 		s.mu.Unlock()
 		granted++
+		if granted > 50000 { // safety net: no scenario of this family needs that many steps
+			res.Hung = true
+			return res
+		}
 		t.grant <- struct{}{}
 		s.await(t, timer)
 		// quiescence before the step is observed: threads woken by this step run to their next yield
@@ -540,6 +584,9 @@ func (s *S) waitEvent(timer *time.Timer, d time.Duration) {
 
 // await waits until the granted thread parked, finished, or is blocked in the runtime.
 func (s *S) await(t *Thread, timer *time.Timer) {
+	s.mu.Lock()
+	seq := s.stepNo
+	s.mu.Unlock()
 	start := time.Now()
 	wait := 150 * time.Microsecond
 	blockedSeen := 0
@@ -553,7 +600,7 @@ func (s *S) await(t *Thread, timer *time.Timer) {
 				default:
 				}
 			}
-			if ev.t == t {
+			if ev.t == t && ev.seq >= seq {
 				return
 			}
 			continue
